@@ -51,7 +51,12 @@ class UFFFT:
         return self.uf[key]
     def apply(self, kind, N, ins):
         nout = 2 * (N // 2 + 1) if kind == 0 else N
-        return [self.F(kind, N, k, len(ins))(*ins) for k in range(nout)]
+        outs = [self.F(kind, N, k, len(ins))(*ins) for k in range(nout)]
+        if kind == 0:
+            # the one bin of the forward transform whose value code branches on: Y_0 = sum of the inputs (real), exactly - a fact of the DFT, kept so that a decision on the
+            # "DC component" is a decision on the data and not on an arbitrary function value
+            outs[0] = z3.Sum([z3.RealVal(0)] + list(ins)) if len(ins) > 1 else ins[0]; outs[1] = z3.RealVal(0)
+        return outs
     def __call__(self, ex, st, fr, args, ins):
         p = self.plans[args[0]]; N = p['n']; kind = p['kind']
         nin = N if kind == 0 else 2 * (N // 2 + 1)
